@@ -850,16 +850,47 @@ def pred_c14(line, st):
             order[key] = want
     if throws and t > 0:
         return "run %s: Deliver threw %s within the fault assumption" % (run, throws[:2])
+    # validity and totality: once every protocol message has been handed over (the harness drained the
+    # network, all parties back on the main channel).  Not promised: with the skip heuristic on (slots are
+    # dropped by design), and for the channel-switching pattern (a party that was outside a channel while a
+    # slot completed only catches up through the recovery path, exercised but not required to be total).
+    if drained and fskip == 0 and pattern != "chan":
+        st["total_runs"] = st.get("total_runs", 0) + 1
+        got = {}
+        for x in dl:
+            if int(x[0]) in honest:
+                got.setdefault((x[5], int(x[2]), x[3]), set()).add(int(x[0]))
+        for x in bc:
+            snd, mid, seq = int(x[0]), x[1], x[2]
+            if snd in honest:
+                miss = [p for p in honest if p not in got.get((mid, snd, seq), set())]
+                if miss:
+                    return "run %s (n=%d t=%d fifo=%d %s): broadcast of honest sender %d slot %s never delivered by honest parties %s although every message was handed over" % (run, n, t, fifo, pattern, snd, seq, miss)
+        for slot, who in got.items():
+            miss = [p for p in honest if p not in who]
+            if miss:
+                return "run %s (n=%d t=%d fifo=%d %s): sender %d slot %s delivered by %s but never by %s although every message was handed over" % (run, n, t, fifo, pattern, slot[1], slot[2], sorted(who), miss)
     return None
 
 
 PROPS["C14"] = dict(
     module="TmcgProps.C14",
     areas=[("rbc", {"quick": 24, "thorough": 1500}, [], "san")],
-    obligations=[],
+    obligations=[("Tmcg.C14.agreement", "full"), ("Tmcg.C14.integrity", "full"), ("Tmcg.C14.no_duplication", "full"),
+                 ("Tmcg.C14.non_vacuous", "full"), ("Tmcg.C14.digest_zero_breaks_agreement", "full"),
+                 ("Tmcg.C14.delivery_spec", "full"), ("Tmcg.C14.delivery_spec_fails_with_skip", "full"),
+                 ("Tmcg.C14.fifo_order", "full"), ("Tmcg.C14.deliver_keeps_channel", "full"),
+                 ("Tmcg.C14.deliverFrom_isolation", "full"), ("Tmcg.C14.unset_restores", "full")],
     predicate=pred_c14,
-    level_text="",
-    level_note=LEVEL_NOTE,
+    level_text="Invariant proofs in Lean 4 over a model of Deliver/Broadcast/DeliverFrom/setID/unsetID (every branch of the C++ event loop) composed into an n-party system with arbitrary message "
+               "scheduling and arbitrary messages on the links of up to t<n/3 Byzantine parties: agreement, integrity, no duplication (FIFO on and off) for every reachable state; per-party theorems for FIFO order, "
+               "channel isolation of Deliver and DeliverFrom, nested channel restore. Correspondence: the real class stepped one Deliver call at a time over an in-memory link layer (n=2..7, Byzantine catalogue, "
+               "held/duplicated/out-of-order messages, channel switching), full internal state compared with the model after every call. "
+               "Partial: liveness (validity, totality after all messages are handed over) is checked on the real implementation by the run predicate only, not proved in Lean.",
+    level_note=LEVEL_NOTE + " The digest function is a parameter: injective and never 0 (machine-checked counterexample without the second assumption).",
+    assumptions=["digest function injective (collision resistance idealised) and H(m) != 0",
+                 "partial: validity/totality (liveness) not proved in Lean; checked by predicate on drained runs of the real implementation",
+                 "FIFO-order and delivery-spec theorems assume fifo_skip = 0 (the default); with the skip heuristic on, slots are dropped by design"],
 )
 
 
